@@ -1,6 +1,7 @@
 """C19 Token constants: one per terminal, EOF=0, ERROR=1, same numbers in all tables."""
 import common
 import lexcommon
+from props import c07_lexgenspec
 import lrcommon
 
 LEVEL = "proof"
@@ -25,6 +26,7 @@ def run(r):
         r.violation("terminals-tie", {"kind": "correspondence-broken", "first": {"case": c, "implementation": im, "model": mo}}, False)
     # the same numbers in the tables: lexgen checks accept parameters (bisim with expected pairs), lrgen feeds tokens by constant
     lexcommon.run_lex(r, "C19", n_quick=6, n_thorough=60, use=("lex.bisim",), also_if_broken=("C02", "C07", "C11"))
+    c07_lexgenspec.run_lexgenspec(r, "C19")
     return r.finish(LEVEL, "Lean: terminals/constBlock/tokenToString model: EOF=0, ERROR=1, dense, injective, declaration order, ??? outside; "
                     "tie: numbering model vs emitted const block on random multi-file specs; accept parameters and row keys checked through the table validators",
                     common.TRUSTED_COMMON)
